@@ -22,7 +22,8 @@ pub struct CText {
 
 #[derive(Clone, Debug, PartialEq, Serialize, Deserialize)]
 pub enum CBlock {
-    Heading(CText),
+    /// text and source level (the level is judged by C07 only)
+    Heading(CText, u8),
     Para(CText),
     Code { lang: String, body: String },
     Quote(Vec<CBlock>),
@@ -34,7 +35,7 @@ pub enum CBlock {
 impl CBlock {
     pub fn kind(&self) -> &'static str {
         match self {
-            CBlock::Heading(_) => "heading",
+            CBlock::Heading(_, _) => "heading",
             CBlock::Para(_) => "para",
             CBlock::Code { .. } => "code",
             CBlock::Quote(_) => "quote",
@@ -158,15 +159,16 @@ fn ctext(inl: &[SInline], o: &CanonOpts) -> CText {
 
 fn trim_blank_lines(body: &str) -> String {
     // leading/trailing blank lines of a code body are presentation (normalization_raw raw_trim*)
-    let b = body.replace("\r\n", "\n");
-    b.trim_matches('\n').to_string()
+    // trailing whitespace of a line is spacing, not content
+    let b: Vec<&str> = body.lines().map(|l| l.trim_end()).collect();
+    b.join("\n").trim_matches('\n').to_string()
 }
 
 pub fn cblocks(blocks: &[SBlock], o: &CanonOpts) -> Vec<CBlock> {
     let mut out = vec![];
     for b in blocks {
         match &b.kind {
-            BKind::Heading(_) => out.push(CBlock::Heading(ctext(&b.inlines, o))),
+            BKind::Heading(l) => out.push(CBlock::Heading(ctext(&b.inlines, o), *l)),
             BKind::Para => out.push(CBlock::Para(ctext(&b.inlines, o))),
             BKind::Code { lang, .. } => out.push(CBlock::Code {
                 lang: lang.trim().to_string(),
@@ -280,7 +282,7 @@ pub fn diff_blocks(a: &[CBlock], b: &[CBlock], ctx: &mut Vec<&'static str>) -> O
             });
         }
         match (x, y) {
-            (CBlock::Heading(p), CBlock::Heading(q)) | (CBlock::Para(p), CBlock::Para(q)) => {
+            (CBlock::Heading(p, _), CBlock::Heading(q, _)) | (CBlock::Para(p), CBlock::Para(q)) => {
                 if p != q {
                     return Some(Diff {
                         sig: format!("{}:{}|{}", x.kind(), text_diff_kind(p, q), ctx_name(ctx)),
@@ -422,4 +424,174 @@ pub fn scan_stats(s: &Scan, text: &str) -> ScanStats {
         }
     });
     st
+}
+
+// ---------------------------------------------------------------------------------------------
+// C07: documented restructurings and heading levels
+// ---------------------------------------------------------------------------------------------
+
+/// Apply to the *expected* side the three restructurings the C07 quantifier allows:
+/// a heading that is the first block of a list item counts as that item's text; an item that
+/// starts with a list is merged into the enclosing list (its remaining blocks go to the last
+/// merged item); empty items carry nothing.
+pub fn restructure(blocks: &mut Vec<CBlock>) {
+    for b in blocks.iter_mut() {
+        match b {
+            CBlock::Quote(inner) => restructure(inner),
+            CBlock::List { items, .. } => {
+                let old = std::mem::take(items);
+                let mut out: Vec<Vec<CBlock>> = vec![];
+                for it in old {
+                    flatten_item(it, &mut out);
+                }
+                for it in out.iter_mut() {
+                    if let Some(CBlock::Heading(t, _)) = it.first().cloned() {
+                        it[0] = CBlock::Para(t);
+                    }
+                    restructure(it);
+                }
+                *items = out;
+            }
+            _ => {}
+        }
+    }
+    // a list that lost all its items disappears
+    blocks.retain(|b| !matches!(b, CBlock::List { items, .. } if items.is_empty()));
+}
+
+fn flatten_item(mut it: Vec<CBlock>, out: &mut Vec<Vec<CBlock>>) {
+    if it.is_empty() {
+        return;
+    }
+    if let CBlock::List { .. } = &it[0] {
+        let first = it.remove(0);
+        if let CBlock::List { items, .. } = first {
+            let before = out.len();
+            for sub in items {
+                flatten_item(sub, out);
+            }
+            if out.len() > before {
+                out.last_mut().unwrap().extend(it);
+            } else if !it.is_empty() {
+                flatten_item(it, out);
+            }
+        }
+        return;
+    }
+    out.push(it);
+}
+
+pub fn well_nested(levels: &[u8]) -> bool {
+    if levels.is_empty() {
+        return true;
+    }
+    if levels[0] != 1 {
+        return false;
+    }
+    levels.windows(2).all(|w| w[1] <= w[0] + 1)
+}
+
+fn scope_levels(blocks: &[CBlock]) -> Vec<u8> {
+    blocks
+        .iter()
+        .filter_map(|b| if let CBlock::Heading(_, l) = b { Some(*l) } else { None })
+        .collect()
+}
+
+/// Compare heading levels scope by scope (document, each quote, each list item). Trees must
+/// already be structurally equal. Returns (description, input levels, output levels) of the first
+/// scope that breaks the rule.
+pub fn levels_diff(a: &[CBlock], b: &[CBlock], ctx: &mut Vec<&'static str>, stats: &mut (u64, u64)) -> Option<Diff> {
+    let la = scope_levels(a);
+    let lb = scope_levels(b);
+    if !la.is_empty() {
+        if well_nested(&la) {
+            stats.0 += 1;
+            if la != lb {
+                return Some(Diff {
+                    sig: format!("levels:well-nested-changed|{}", ctx_name(ctx)),
+                    detail: format!("scope {}: well-nested input levels {:?} came out as {:?}", ctx_name(ctx), la, lb),
+                });
+            }
+        } else {
+            stats.1 += 1;
+            if !well_nested(&lb) {
+                return Some(Diff {
+                    sig: format!("levels:not-well-nested|{}", ctx_name(ctx)),
+                    detail: format!("scope {}: input levels {:?} came out as {:?}, which is not well-nested", ctx_name(ctx), la, lb),
+                });
+            }
+        }
+    }
+    for (x, y) in a.iter().zip(b.iter()) {
+        match (x, y) {
+            (CBlock::Quote(p), CBlock::Quote(q)) => {
+                ctx.push("quote");
+                let d = levels_diff(p, q, ctx, stats);
+                ctx.pop();
+                if d.is_some() {
+                    return d;
+                }
+            }
+            (CBlock::List { items: p, ordered }, CBlock::List { items: q, .. }) => {
+                ctx.push(if *ordered { "oitem" } else { "bitem" });
+                for (pi, qi) in p.iter().zip(q.iter()) {
+                    let d = levels_diff(pi, qi, ctx, stats);
+                    if d.is_some() {
+                        ctx.pop();
+                        return d;
+                    }
+                }
+                ctx.pop();
+            }
+            _ => {}
+        }
+    }
+    None
+}
+
+/// Scan-level domain predicate for KF-FENCE-IN-CODE: some code block body holds a line that starts
+/// (after up to three spaces) with three or more backticks.
+pub fn has_fence_in_code(s: &Scan) -> bool {
+    let mut found = false;
+    walk(&s.blocks, &mut |b, _| {
+        if let BKind::Code { .. } = b.kind {
+            for l in b.text.lines() {
+                let t = l.trim_start();
+                if l.len() - t.len() <= 3 && t.starts_with("```") {
+                    found = true;
+                }
+            }
+        }
+    });
+    found
+}
+
+/// Drop quotes without content (an empty quote carries nothing).
+pub fn drop_empty_quotes(blocks: &mut Vec<CBlock>) {
+    for b in blocks.iter_mut() {
+        match b {
+            CBlock::Quote(inner) => drop_empty_quotes(inner),
+            CBlock::List { items, .. } => items.iter_mut().for_each(|it| drop_empty_quotes(it)),
+            _ => {}
+        }
+    }
+    blocks.retain(|b| !matches!(b, CBlock::Quote(inner) if inner.is_empty()));
+}
+
+/// Scan-level domain predicate for KF-ADJACENT-LISTS: some scope holds two consecutive lists of the
+/// same kind (blocks that iwe drops or that carry nothing are already absent from the canon).
+pub fn has_adjacent_same_lists(blocks: &[CBlock]) -> bool {
+    for w in blocks.windows(2) {
+        if let (CBlock::List { ordered: a, .. }, CBlock::List { ordered: b, .. }) = (&w[0], &w[1]) {
+            if a == b {
+                return true;
+            }
+        }
+    }
+    blocks.iter().any(|b| match b {
+        CBlock::Quote(inner) => has_adjacent_same_lists(inner),
+        CBlock::List { items, .. } => items.iter().any(|it| has_adjacent_same_lists(it)),
+        _ => false,
+    })
 }
